@@ -160,16 +160,50 @@ def gen_x86_64_linux(rng, force=None):
     d = img.desc
     levels = f.get("levels", 5 if rng.random() < 0.25 else 4)
     d["levels"] = levels
-    ver = f.get("ver", pick(rng, [None, None, VER(2, 6, 9), VER(2, 6, 18), VER(2, 6, 27), VER(2, 6, 32), VER(3, 10, 0), VER(4, 4, 0),
-                                   VER(4, 8, 0), VER(4, 12, 0), VER(4, 19, 0), VER(5, 4, 0), VER(6, 1, 0)]))
+    # version codes on both sides of every threshold of x86_64.c (2.6.11, 2.6.27, 2.6.31, 4.8.0 for the placement, 4.13.0 for the
+    # paging depth) and the thresholds themselves
+    ver = f.get("ver", pick(rng, [None, None, None, VER(2, 6, 9), VER(2, 6, 10), VER(2, 6, 11), VER(2, 6, 18), VER(2, 6, 26), VER(2, 6, 27),
+                                   VER(2, 6, 30), VER(2, 6, 31), VER(2, 6, 32), VER(3, 10, 0), VER(4, 4, 0), VER(4, 7, 10),
+                                   VER(4, 8, 0), VER(4, 12, 14), VER(4, 13, 0), VER(4, 19, 0), VER(5, 4, 0), VER(6, 1, 0)]))
     if levels == 5 and ver is not None and ver < VER(4, 14, 0):
         ver = VER(5, 4, 0)
     d["ver"] = ver
-    # ---- how the library learns the root page table (decided first: it limits which placements are plausible)
-    rootsrc = f.get("rootsrc", pick(rng, ["sym", "sym", "sym", "cr3", "opt-phys", "opt-kv", "sym-old"]))
-    have_pb = f.get("phys_base_opt", rng.random() < 0.7)
-    usable = rootsrc in ("cr3", "opt-phys") or have_pb
-    img.root_known = usable
+    # ---- what the library is told (decided first: it limits which placements are plausible).  Every optional
+    # input of x86_64.c is an independent choice: rootpgt option, init_top_pgt, init_level4_pgt, cr3, cr4,
+    # NUMBER(pgtable_l5_enabled), virt_bits option, _stext, _text, phys_base option, page_offset_base, version code.
+    # `rootsrc` / `l5src` (forced scenarios) name ONE source and switch the others of their group off unless forced too.
+    rootsrc = f.get("rootsrc")
+    if rootsrc is None:
+        told = dict(rootopt=pick(rng, [None, None, None, None, None, "phys", "kv"]), top=rng.random() < 0.45,
+                    l4=rng.random() < 0.2, cr3=rng.random() < 0.4)
+    else:
+        told = dict(rootopt={"opt-phys": "phys", "opt-kv": "kv"}.get(rootsrc), top=rootsrc == "sym", l4=rootsrc == "sym-old",
+                    cr3=rootsrc == "cr3")
+    for k in ("rootopt", "top", "l4", "cr3"):
+        if "in_" + k in f:
+            told[k] = f["in_" + k]
+    have_pb = f.get("phys_base_opt", rng.random() < 0.6)
+    # the root the library will use (documented precedence: option, init_top_pgt, init_level4_pgt, cr3) and whether it can
+    # read it: a KVADDR root needs the kernel-text offset, which only the phys_base option supplies before any table is read
+    root_as = ("phys" if told["rootopt"] == "phys" else "kv" if (told["rootopt"] == "kv" or told["top"] or told["l4"]) else
+               "phys" if told["cr3"] else None)
+    usable = root_as == "phys" or (root_as == "kv" and have_pb)
+    l5src = f.get("l5src")
+    if l5src is None:
+        l5 = dict(vbits=rng.random() < 0.15, cr4=rng.random() < 0.35, num=rng.random() < 0.5)
+    else:
+        l5 = dict(vbits=l5src == "opt", cr4=l5src == "cr4", num=l5src == "num")
+    if levels == 5 and l5src is None and not (l5["vbits"] or l5["cr4"] or l5["num"]) and rng.random() < 0.8:
+        l5["num"] = True                 # a kernel that can run with 5 levels exports the NUMBER
+    for k in ("vbits", "cr4", "num"):
+        if "in_" + k in f:
+            l5[k] = f["in_" + k]
+    have_stext = f.get("stext", l5src == "stext" or rng.random() < 0.6)
+    if l5src == "ver" and "stext" not in f:
+        have_stext = False
+    if l5src == "ver" and (ver is None or ver >= VER(4, 13, 0)):
+        ver = VER(4, 12, 0) if levels == 4 else ver
+        d["ver"] = ver
     # ---- direct map placement
     kaslr_bases = [0xffff880000000000 + rng.randrange(1, 40 * 1024) * GB, 0xffff880000000000 + rng.randrange(1, 40 * 1024) * GB,
                    0xffff9c0000000000 + rng.randrange(0, 1024) * GB]
@@ -273,41 +307,59 @@ def gen_x86_64_linux(rng, force=None):
     d["root_pa"] = root_pa
     d["npt"] = len(tb.tables)
     # ---- what the library is told
-    d["rootsrc"] = rootsrc
-    if rootsrc == "sym":
+    if told["top"]:
         img.sym("sym", "init_top_pgt", root_va)
-    elif rootsrc == "sym-old":
+    if told["l4"]:
         img.sym("sym", "init_level4_pgt", root_va)
-    elif rootsrc == "cr3":
+    if told["cr3"]:
         img.sym("reg", "cr3", root_pa | pick(rng, [0, 0, 0x18, 0x801]))
-    elif rootsrc == "opt-phys":
+    if told["rootopt"] == "phys":
         img.opts["rootpgt"] = "%d:%d" % (pick(rng, [KPHYS, MACHPHYS]), root_pa)
-    elif rootsrc == "opt-kv":
+    elif told["rootopt"] == "kv":
         img.opts["rootpgt"] = "%d:%d" % (KV, root_va)
+    d["rootsrc"] = "+".join(k for k in ("rootopt", "top", "l4", "cr3") if told[k]) or "none"
+    d["root_as"] = root_as
     if ver is not None:
         img.opts["ver"] = ver
-    # 5-level indication
-    l5src = f.get("l5src", pick(rng, ["cr4", "num", "opt"] if levels == 5 else ["cr4", "num", "opt", "stext", "ver", "num"]))
-    if l5src == "ver" and (ver is None or ver >= VER(4, 13, 0)):
-        l5src = "num"
-    d["l5src"] = l5src
-    if l5src == "cr4":
+    # 5-level indication: virt_bits option, CR4.LA57, NUMBER(pgtable_l5_enabled) in any combination; without any of them the
+    # library takes a known _stext (or a version code < 4.13) for "4 levels"
+    if l5["cr4"]:
         img.sym("reg", "cr4", 0x3406e0 | ((1 << 12) if levels == 5 else 0))
-    elif l5src == "num":
+    if l5["num"]:
         img.sym("num", "pgtable_l5_enabled", 1 if levels == 5 else 0)
-    elif l5src == "opt":
+    if l5["vbits"]:
         img.opts["virt_bits"] = 57 if levels == 5 else 48
-    have_stext = f.get("stext", l5src == "stext" or rng.random() < 0.6)
+    d["l5src"] = "+".join(k for k in ("vbits", "cr4", "num") if l5[k]) or ("stext" if have_stext else "ver" if ver is not None and ver < VER(4, 13, 0) else "none")
+    # is the library told the paging depth?  (a 5-level kernel always exports the NUMBER: an image with 5 levels, _stext and
+    # nothing else misleads the heuristic by construction and is only checked for consistency, not for completeness)
+    if l5["vbits"] or l5["cr4"] or l5["num"]:
+        levels_told = levels
+    elif have_stext or (ver is not None and ver < VER(4, 13, 0)):
+        levels_told = 4
+    else:
+        levels_told = None
+    d["levels_told"] = levels_told
+    img.root_known = usable and levels_told == levels
     have_text = f.get("text", rng.random() < 0.3)
     have_pob = f.get("pob", rng.random() < 0.4)
-    if levels == 5 and l5src != "stext":
-        pass
-    if have_stext and not (levels == 5 and l5src not in ("cr4", "num", "opt")):
+    if have_stext:
         img.sym("sym", "_stext", text_lo + pick(rng, [0, 0x1000, 0x40]))
     if have_text:
         img.sym("sym", "_text", text_lo)
     if have_pb:
         img.opts["phys_base"] = phys_base
+    if f.get("xen_xlat1"):
+        # a PV-domain set-up (only meaningful as the first stage of a history: the image itself is bare metal)
+        img.opts["xen_xlat"] = 1
+        img.opts["xen_p2m_mfn"] = root_pa >> 12
+        img.root_known = False
+    xx = f.get("xen_xlat0", rng.random() < 0.08) and not f.get("xen_xlat1")
+    if xx:
+        # the option present but off (what libkdumpfile passes for a bare-metal dump), a p2m root that must then be ignored
+        img.opts["xen_xlat"] = 0
+        if rng.random() < 0.5:
+            img.opts["xen_p2m_mfn"] = rng.randrange(1, 1 << 20)
+    d["xen_xlat0"] = xx
     pob_va = text_lo + tsize - 0x5000 + 0x10
     img.wphys64(text_pa(pob_va), page_offset)
     if have_pob:
@@ -397,19 +449,31 @@ def gen_x86_64_xen(rng, force=None):
         img.regions.append(("stubs", text + GB - n * 0x1000, text + GB - 1, False))
     tb.store(img)
     img.walk = tb.walk
-    rootsrc = f.get("rootsrc", pick(rng, ["cr3", "cr3", "sym", "opt-phys"]))
-    if rootsrc == "sym" and text is None:
-        rootsrc = "cr3"
-    d["rootsrc"] = rootsrc
-    if rootsrc == "cr3":
-        img.sym("reg", "cr3", root_pa)
-    elif rootsrc == "sym":
-        img.sym("sym", "pgd_l4", root_va)
-        img.opts["phys_base"] = xphys
+    # inputs of map_xen_x86_64, each present or absent on its own: rootpgt option, cr3, pgd_l4, phys_base option, version code
+    rootsrc = f.get("rootsrc") if not f.get("in_none") else "none"
+    if rootsrc is None:
+        rootopt, have_cr3, have_sym = rng.random() < 0.2, rng.random() < 0.6, rng.random() < 0.45
+        have_pb = rng.random() < 0.4
+        if not (rootopt or have_cr3 or (have_sym and (have_pb or root_va >= XEN_DIRECTMAP))) and \
+                (ver is None or variant in ("bigmem", "4.0dev")):
+            have_cr3 = True         # without readable tables AND without a version nothing can be placed (and BIGMEM cannot be told from a version)
     else:
+        rootopt, have_cr3, have_sym = rootsrc == "opt-phys", rootsrc == "cr3", rootsrc == "sym"
+        have_pb = rootsrc == "sym" or rng.random() < 0.3
+    if f.get("in_none"):
+        rootopt = have_cr3 = have_sym = have_pb = False           # nothing but the version code
+    if have_cr3:
+        img.sym("reg", "cr3", root_pa)
+    if have_sym:
+        img.sym("sym", "pgd_l4", root_va)
+    if rootopt:
         img.opts["rootpgt"] = "%d:%d" % (pick(rng, [KPHYS, MACHPHYS]), root_pa)
-    if rng.random() < 0.3 and "phys_base" not in img.opts:
+    if have_pb:
         img.opts["phys_base"] = xphys
+    d["rootsrc"] = "+".join(x for x, c in (("opt", rootopt), ("cr3", have_cr3), ("sym", have_sym)) if c) or "none"
+    d["phys_base_opt"] = have_pb
+    # a KVADDR root (pgd_l4) is readable through the temporary mapping: inside the direct map, or with phys_base
+    img.root_known = bool(rootopt or have_cr3 or (have_sym and (have_pb or root_va >= XEN_DIRECTMAP)))
     if ver is not None:
         img.opts["ver"] = ver
     img.rcaps = f.get("rcaps", pick(rng, [3, 3, 2, 1]))
@@ -539,38 +603,57 @@ def gen_ia32_linux(rng, force=None):
     tb.store(img)
     img.walk = tb.walk
     d["npt"] = len(tb.tables)
-    rootsrc = f.get("rootsrc", pick(rng, ["sym", "sym", "cr3+sym", "opt", "opt"]))
-    d["rootsrc"] = rootsrc
-    if "sym" in rootsrc:
+    # inputs of ia32.c, each present or absent on its own: rootpgt option, cr3, swapper_pg_dir, phys_bits option,
+    # vmap_area_list / vmlist and every structure offset they need
+    rootsrc = f.get("rootsrc")
+    if rootsrc is None:
+        have_sym, have_cr3 = rng.random() < 0.75, rng.random() < 0.35
+        rootopt = pick(rng, [None, None, None, None, KPHYS, MACHPHYS, KV])
+    else:
+        have_sym, have_cr3 = "sym" in rootsrc, "cr3" in rootsrc
+        rootopt = pick(rng, [KPHYS, MACHPHYS, KV]) if rootsrc == "opt" else None
+    have_pbits = f.get("phys_bits_opt", rng.random() < 0.3)
+    if have_sym:
         img.sym("sym", "swapper_pg_dir", DM + root_pa)
-    if "cr3" in rootsrc:
+    if have_cr3:
         img.sym("reg", "cr3", root_pa)
-    if rootsrc == "opt":
-        img.opts["rootpgt"] = "%d:%d" % (pick(rng, [KPHYS, MACHPHYS, KV]), root_pa)
-        if img.opts["rootpgt"].startswith("2:"):
-            img.opts["rootpgt"] = "2:%d" % (DM + root_pa)
-    if f.get("phys_bits_opt", rng.random() < 0.3):
+    if rootopt is not None:
+        img.opts["rootpgt"] = "%d:%d" % (rootopt, DM + root_pa if rootopt == KV else root_pa)
+    if have_pbits:
         img.opts["phys_bits"] = 52 if pae else 32
-    vsrc = f.get("vsrc", pick(rng, ["vmap_area_list", "vmap_area_list", "vmlist", "none"]))
-    d["vsrc"] = vsrc
-    if vsrc == "vmap_area_list":
+    d["rootsrc"] = "+".join(x for x, c in (("opt", rootopt is not None), ("cr3", have_cr3), ("sym", have_sym)) if c) or "none"
+    # the root the library uses: option, cr3, swapper_pg_dir; PAE is probed through the option's or the symbol's root
+    root_as = ("kv" if rootopt == KV else "phys") if rootopt is not None else "phys" if have_cr3 else "kv" if have_sym else None
+    d["root_as"] = root_as
+    img.root_known = root_as is not None and (have_pbits or rootopt is not None or have_sym)
+    if not img.root_known:
+        d["osinit_may_fail"] = True
+    vsrc = f.get("vsrc", pick(rng, ["vmap_area_list", "vmap_area_list", "vmlist", "none", "both", "val-partial+vmlist", "val-partial",
+                                    "vmlist-partial"]))
+    d["vsrc_detail"] = vsrc
+    if vsrc in ("vmap_area_list", "both") or vsrc.startswith("val-partial"):
         # struct list_head vmap_area_list in kernel data; first struct vmap_area in the slab
         head = DM + 16 * MB + 0x9000 + 0x40
         area = DM + 8 * MB + 0x340
         off_start, off_list = pick(rng, [(0, 0x18), (0, 0x20), (4, 0x1c)])
         img.sym("sym", "vmap_area_list", head)
-        img.sym("offsetof", "vmap_area.va_start", off_start)
-        img.sym("offsetof", "vmap_area.list", off_list)
-        img.sym("offsetof", "list_head.next", 0)
+        offs = [("vmap_area.va_start", off_start), ("vmap_area.list", off_list), ("list_head.next", 0)]
+        if vsrc.startswith("val-partial"):
+            offs.pop(rng.randrange(3))            # one offset missing: the library must fall back to vmlist
+        for n, v in offs:
+            img.sym("offsetof", n, v)
         img.wphys32(head - DM, area + off_list)
         img.wphys32(area - DM + off_start, first_area)
-    elif vsrc == "vmlist":
+    if vsrc in ("vmlist", "both", "val-partial+vmlist", "vmlist-partial"):
         var = DM + 16 * MB + 0x9000 + 0x80
         vm = DM + 8 * MB + 0x500
         img.sym("sym", "vmlist", var)
-        img.sym("offsetof", "vm_struct.addr", 4)
+        if vsrc != "vmlist-partial":
+            img.sym("offsetof", "vm_struct.addr", 4)
         img.wphys32(var - DM, vm)
         img.wphys32(vm - DM + 4, first_area)
+    # effective source of VMALLOC_START ("none": the recorded finding ia32-rdirect-without-vmalloc-start applies)
+    d["vsrc"] = "none" if vsrc in ("none", "val-partial", "vmlist-partial") else "vmlist" if vsrc in ("vmlist", "val-partial+vmlist") else "vmap_area_list"
     img.rcaps = f.get("rcaps", pick(rng, [3, 3, 1, 2]))
     d["rcaps"] = img.rcaps
     a, b = img.ram[0]
@@ -694,19 +777,35 @@ def gen_riscv64_linux(rng, force=None):
     tb.store(img)
     img.walk = tb.walk
     d["npt"] = len(tb.tables)
-    rootsrc = f.get("rootsrc", pick(rng, ["sym", "sym", "opt"]))
-    d["rootsrc"] = rootsrc
-    if rootsrc == "sym":
+    # inputs of riscv64.c, each present or absent on its own: rootpgt option, swapper_pg_dir, NUMBER(va_kernel_pa_offset),
+    # NUMBER(VA_BITS), virt_bits option, NUMBER(PAGE_OFFSET)
+    rootsrc = f.get("rootsrc")
+    if rootsrc is None:
+        rootopt = pick(rng, [None, None, None, KPHYS, MACHPHYS, KV if rng.random() < 0.3 else KPHYS])
+        have_sym, have_vkpo = rng.random() < 0.75, rng.random() < 0.8
+    else:
+        rootopt = pick(rng, [KPHYS, MACHPHYS]) if rootsrc == "opt" else None
+        have_sym = have_vkpo = rootsrc == "sym"
+    if have_sym:
         img.sym("sym", "swapper_pg_dir", swapper_va)
+    if have_vkpo:
         img.sym("num", "va_kernel_pa_offset", (kva - kpa) % W)
-    else:
-        img.opts["rootpgt"] = "%d:%d" % (pick(rng, [KPHYS, MACHPHYS]), swapper_pa)
-    if rng.random() < 0.5:
+    if rootopt is not None:
+        img.opts["rootpgt"] = "%d:%d" % (rootopt, swapper_va if rootopt == KV else swapper_pa)
+    d["rootsrc"] = "+".join(x for x, c in (("opt", rootopt is not None), ("sym", have_sym), ("vkpo", have_vkpo)) if c) or "none"
+    vb_num, vb_opt = pick(rng, [(True, False), (False, True), (True, True), (True, False), (False, False) if rng.random() < 0.3 else (True, True)])
+    vb_num, vb_opt = f.get("vb", (vb_num, vb_opt))
+    if vb_num:
         img.sym("num", "VA_BITS", vabits)
-    else:
+    if vb_opt:
         img.opts["virt_bits"] = vabits
+    d["vbsrc"] = "+".join(x for x, c in (("num", vb_num), ("opt", vb_opt)) if c) or "none"
     if f.get("page_offset_num", rng.random() < 0.85):
         img.sym("num", "PAGE_OFFSET", page_offset)
+    root_ok = (rootopt in (KPHYS, MACHPHYS)) or (rootopt is None and have_sym and have_vkpo)
+    img.root_known = root_ok and (vb_num or vb_opt)
+    if not img.root_known:
+        d["osinit_may_fail"] = True
     img.rcaps = f.get("rcaps", pick(rng, [3, 1, 2]))
     d["rcaps"] = img.rcaps
     a, b = img.ram[0]
@@ -864,31 +963,357 @@ def gen_aarch64_linux(rng, force=None):
     kimage_voffset = None
     # the root table is not inside the image mapping here; give the library the offset that makes
     # swapper_pg_dir - kimage_voffset the physical root (that is all it uses the symbol for)
-    rootsrc = f.get("rootsrc", pick(rng, ["sym", "sym", "opt"]))
-    d["rootsrc"] = rootsrc
-    if rootsrc == "sym":
-        sv = kva + 0x1000
+    # inputs of aarch64.c, each present or absent on its own: rootpgt option, swapper_pg_dir, NUMBER(kimage_voffset),
+    # virt_bits option, NUMBER(TCR_EL1_T1SZ), NUMBER(VA_BITS), _stext, version code (both sides of 5.4.0); page_shift is mandatory
+    rootsrc = f.get("rootsrc")
+    sv = kva + 0x1000
+    if rootsrc is None:
+        rootopt = pick(rng, [None, None, None, KPHYS, MACHPHYS, KV if rng.random() < 0.3 else KPHYS])
+        have_sym, have_kvo = rng.random() < 0.75, rng.random() < 0.8
+    else:
+        rootopt = pick(rng, [KPHYS, MACHPHYS]) if rootsrc == "opt" else None
+        have_sym = have_kvo = rootsrc == "sym"
+    if have_sym:
         img.sym("sym", "swapper_pg_dir", sv)
+    if have_kvo:
         img.sym("num", "kimage_voffset", (sv - swapper_pa) % W)
-    else:
-        img.opts["rootpgt"] = "%d:%d" % (pick(rng, [KPHYS, MACHPHYS]), swapper_pa)
-    vsrc = pick(rng, ["t1sz", "va_bits", "opt"])
-    if vsrc == "t1sz":
+    if rootopt is not None:
+        img.opts["rootpgt"] = "%d:%d" % (rootopt, sv if rootopt == KV else swapper_pa)
+    d["rootsrc"] = "+".join(x for x, c in (("opt", rootopt is not None), ("sym", have_sym), ("kvo", have_kvo)) if c) or "none"
+    vt, vn, vo = pick(rng, [(1, 0, 0), (0, 1, 0), (0, 0, 1), (1, 1, 0), (1, 1, 1), (0, 1, 1), (1, 0, 1), (0, 0, 0) if rng.random() < 0.3 else (1, 1, 0)])
+    vt, vn, vo = f.get("vb", (vt, vn, vo))
+    if vt:
         img.sym("num", "TCR_EL1_T1SZ", 64 - vb)
-    elif vsrc == "va_bits":
+    if vn:
         img.sym("num", "VA_BITS", vb)
-    else:
+    if vo:
         img.opts["virt_bits"] = vb
-    # which half holds the linear map: _stext, or the version code
-    hsrc = f.get("hsrc", pick(rng, ["stext", "stext", "ver", "none"]))
+    d["vbsrc"] = "+".join(x for x, c in (("t1sz", vt), ("va_bits", vn), ("opt", vo)) if c) or "none"
+    # which half holds the linear map: _stext, or the version code, or both, or nothing (then there is no fast path)
+    hsrc = f.get("hsrc", pick(rng, ["stext", "stext", "ver", "none", "both"]))
     d["hsrc"] = hsrc
-    if hsrc == "stext":
+    if hsrc in ("stext", "both"):
         img.sym("sym", "_stext", kva + 0x10000)
-    elif hsrc == "ver":
-        img.opts["ver"] = VER(5, 10, 0) if new_layout else VER(4, 19, 0)
+    if hsrc in ("ver", "both"):
+        img.opts["ver"] = pick(rng, [VER(5, 4, 0), VER(5, 10, 0), VER(6, 1, 0)]) if new_layout else pick(rng, [VER(5, 3, 18), VER(4, 19, 0), VER(4, 9, 0)])
+    root_ok = (rootopt in (KPHYS, MACHPHYS)) or (rootopt is None and have_sym and have_kvo)
+    img.root_known = bool(root_ok and (vt or vn or vo))
+    if not img.root_known:
+        d["osinit_may_fail"] = True
     img.rcaps = f.get("rcaps", pick(rng, [3, 1, 2]))
     d["rcaps"] = img.rcaps
     for a, b in ram:
         img.extra_rt += [a, a + psz, b - psz + 1, b, b + 1, (a + b) // 2 & ~7]
     img.extra_rt += [swapper_pa, 0, ram0 - 1]
     return img
+
+
+# =========================================================================== arm (32-bit, short descriptors)
+class ArmTables:
+    """Arm short-descriptor translation tables (TTBCR.N = 0): a 16 KiB first-level table of 4096 word entries indexed by
+    VA[31:20] — fault (type 0), pointer to a 1 KiB second-level table (type 1), 1 MiB section (type 2, bit 18 clear),
+    16 MiB supersection (type 2, bit 18 set: sixteen identical consecutive entries, PA[35:32] in bits 23:20 and PA[39:36] in
+    bits 8:5) — and second-level tables of 256 word entries indexed by VA[19:12]: fault, 64 KiB large page (type 1: sixteen
+    identical consecutive entries) or 4 KiB small page (type 2/3, bit 0 = XN)."""
+    def __init__(self, root, alloc_l2):
+        self.root, self.alloc_l2 = root, alloc_l2
+        self.l1 = {}             # index -> entry
+        self.l2 = {}             # table phys -> {index: entry}
+
+    def _l2_of(self, va):
+        i = va >> 20
+        e = self.l1.get(i)
+        if e is None:
+            t = self.alloc_l2()
+            self.l2[t] = {}
+            e = t | 0x11 if (t >> 10) & 1 else t | 0x01        # domain bits vary, type 1
+            self.l1[i] = e
+        assert e & 3 == 1, "mapping below a section"
+        return e & ~0x3ff
+
+    def map(self, va, pa, kind, xn=0):
+        """kind: 'small' 4 KiB, 'large' 64 KiB, 'sect' 1 MiB, 'super' 16 MiB"""
+        if kind == "small":
+            assert va % 0x1000 == 0 and pa % 0x1000 == 0 and pa < (1 << 32)
+            self.l2[self._l2_of(va)][(va >> 12) & 0xff] = pa | 0x45e & ~1 | 2 | (xn & 1)
+        elif kind == "large":
+            assert va % 0x10000 == 0 and pa % 0x10000 == 0 and pa < (1 << 32)
+            t = self._l2_of(va)
+            for k in range(16):
+                self.l2[t][((va >> 12) & 0xff) + k] = pa | 0x55 & ~3 | 1 | ((xn & 1) << 15)
+        elif kind == "sect":
+            assert va % (1 << 20) == 0 and pa % (1 << 20) == 0 and pa < (1 << 32)
+            assert (va >> 20) not in self.l1
+            self.l1[va >> 20] = pa | 0x1140e | ((xn & 1) << 4)          # type 2, bit 18 clear
+        elif kind == "super":
+            assert va % (1 << 24) == 0 and pa % (1 << 24) == 0 and pa < (1 << 40)
+            e = (pa & 0xff000000) | (((pa >> 32) & 0xf) << 20) | (((pa >> 36) & 0xf) << 5) | (1 << 18) | 0x1140e & ~0x1e0 | ((xn & 1) << 4)
+            for k in range(16):
+                assert (va >> 20) + k not in self.l1
+                self.l1[(va >> 20) + k] = e
+        else:
+            raise ValueError(kind)
+
+    def walk(self, va):
+        """the architecture's walk, written from the Arm ARM (B3.5), not from arm.c"""
+        if va >> 32:
+            return None
+        d1 = self.l1.get(va >> 20, 0)
+        t = d1 & 3
+        if t == 0:
+            return None
+        if t == 1:
+            d2 = self.l2.get(d1 & 0xfffffc00, {}).get((va >> 12) & 0xff, 0)
+            if d2 & 3 == 0:
+                return None
+            if d2 & 3 == 1:
+                return (d2 & 0xffff0000) | (va & 0xffff)
+            return (d2 & 0xfffff000) | (va & 0xfff)
+        if d1 & (1 << 18):
+            return (d1 & 0xff000000) | (((d1 >> 20) & 0xf) << 32) | (((d1 >> 5) & 0xf) << 36) | (va & 0xffffff)
+        return (d1 & 0xfff00000) | (va & 0xfffff)
+
+    def words(self):
+        for i, e in self.l1.items():
+            yield self.root + 4 * i, e
+        for t, ents in self.l2.items():
+            for i, e in ents.items():
+                yield t + 4 * i, e
+
+
+def gen_arm_linux(rng, force=None):
+    """a 32-bit Arm Linux image: lowmem mapped linearly at PAGE_OFFSET (sections, with supersections / large / small pages where
+    the generator is told to), modules and pkmap below PAGE_OFFSET, vmalloc / static device mappings / vectors page above.
+    Inputs of arm.c, each present or absent independently: rootpgt option (KPHYS / MACHPHYS / KVADDR), swapper_pg_dir,
+    _stext, phys_base option; read capabilities incl. KVADDR (lowmem is then also served at its kernel virtual address)."""
+    f = force or {}
+    be = f.get("be", rng.random() < 0.15)
+    img = Img("arm", "linux", be=be)
+    d = img.desc
+    d["be"] = be
+    page_offset = f.get("page_offset", pick(rng, [0xc0000000, 0xc0000000, 0xc0000000, 0x80000000, 0x40000000, 0xb0000000]))
+    phys_off = f.get("phys_off", pick(rng, [0x40000000, 0x40000000, 0, 0x80000000, 0x10000000, 0x60000000, 0xc0000000,
+                                            rng.randrange(1, 0x780) * 2 * MB]))
+    text_off = f.get("text_off", pick(rng, [0x8000, 0x8000, 0x208000, 0x308000]))
+    dm = f.get("dm", pick(rng, ["sect", "sect", "sect", "super", "small", "large", "mixed"]))
+    room = min(0xff000000 - 24 * MB - page_offset, 0xffffffff + 1 - phys_off, 760 * MB if page_offset == 0xc0000000 else 1 << 30)
+    lowmem = f.get("lowmem", pick(rng, [16 * MB, 24 * MB + rng.randrange(1, 200) * 0x1000, 64 * MB, 128 * MB + 0x80000, 256 * MB,
+                                       512 * MB, 760 * MB]))
+    if dm in ("small", "large"):
+        lowmem = min(lowmem, 12 * MB + rng.randrange(0, 256) * 0x1000)
+    lowmem = max(12 * MB, min(lowmem, room)) & ~0xfff
+    d.update(page_offset=page_offset, phys_off=phys_off, text_off=text_off, dm=dm, lowmem=lowmem)
+    highmem = f.get("highmem", rng.random() < 0.3 and phys_off + lowmem + 64 * MB <= (1 << 32))
+    img.ram = [(phys_off, phys_off + lowmem - 1)]
+    if highmem:
+        img.ram.append((phys_off + lowmem, phys_off + lowmem + 64 * MB - 1))
+    d["highmem"] = highmem
+    root_va = page_offset + text_off - 0x4000
+    root_pa = phys_off + text_off - 0x4000
+    pool = [phys_off + 8 * MB]
+    def alloc_l2():
+        p = pool[0]; pool[0] += 0x400
+        assert p < phys_off + 11 * MB
+        return p
+    tb = ArmTables(root_pa, alloc_l2)
+    # ---- lowmem: the kernel maps it with sections as far as alignment allows and finishes with small pages
+    va, pa, end = page_offset, phys_off, page_offset + lowmem
+    while va < end:
+        left = end - va
+        if dm in ("super", "mixed") and va % (16 * MB) == 0 and pa % (16 * MB) == 0 and left >= 16 * MB and \
+                (dm == "super" or rng.random() < 0.5):
+            tb.map(va, pa, "super"); step = 16 * MB
+        elif dm not in ("small", "large") and va % MB == 0 and pa % MB == 0 and left >= MB and \
+                not (dm == "mixed" and va > page_offset + 4 * MB and left <= 2 * MB):
+            tb.map(va, pa, "sect"); step = MB
+        elif dm in ("large", "mixed") and va % 0x10000 == 0 and pa % 0x10000 == 0 and left >= 0x10000:
+            tb.map(va, pa, "large"); step = 0x10000
+        else:
+            tb.map(va, pa, "small"); step = 0x1000
+        va += step; pa += step
+    img.regions.append(("direct", page_offset, end - 1, True))
+    lin_off = phys_off - page_offset
+    def rand_ram_page(align=0x1000):
+        return phys_off + rng.randrange(0, lowmem // align) * align
+    def nonlinear(va, pa):
+        return (pa - va) % (1 << 32) != lin_off % (1 << 32)
+    # ---- modules (PAGE_OFFSET - 16 MiB) and pkmap (PAGE_OFFSET - 2 MiB)
+    mod = page_offset - 16 * MB + rng.randrange(0, 64) * 0x1000
+    nm = rng.randrange(1, 5)
+    for i in range(nm):
+        tb.map(mod + i * 0x1000, rand_ram_page(), "small", xn=rng.randrange(2))
+    img.regions.append(("modules", mod, mod + nm * 0x1000 - 1, False))
+    if highmem:
+        pk = page_offset - 2 * MB
+        tb.map(pk, rand_ram_page(), "small")
+        img.regions.append(("pkmap", pk, pk + 0xfff, False))
+    # ---- vmalloc: 8 MiB guard hole after lowmem
+    vstart = (end + 8 * MB + 8 * MB - 1) & ~(8 * MB - 1) if f.get("vgap", True) is True else end + f["vgap"]
+    vfirst = vstart + f.get("first_area_off", pick(rng, [0, 0, 0x8000, 0x2000]))
+    nv = rng.randrange(2, 6)
+    for i in range(nv):
+        tb.map(vfirst + i * 0x1000, rand_ram_page(), "small", xn=1)
+    img.regions.append(("vmalloc", vfirst, vfirst + nv * 0x1000 - 1, False))
+    nxt = (vfirst + nv * 0x1000 + 0x20000) & ~0xffff
+    if rng.random() < 0.5:
+        # a 64 KiB large page (ioremap of a device window)
+        pa = rand_ram_page(0x10000)
+        tb.map(nxt, pa, "large", xn=1)
+        img.regions.append(("ioremap64k", nxt, nxt + 0xffff, False))
+        nxt += 0x20000
+    sva = (nxt + 2 * MB) & ~(MB - 1)
+    if rng.random() < 0.6 and sva + MB < 0xfe000000:
+        # static device mapping (iotable_init): one section
+        pa = pick(rng, [0x10000000, 0x1c000000, 0xf8000000, 0x01c00000])
+        if nonlinear(sva, pa) and not (phys_off <= pa < phys_off + lowmem):
+            tb.map(sva, pa, "sect", xn=1)
+            img.regions.append(("iosect", sva, sva + MB - 1, False))
+    uva = (sva + 32 * MB) & ~(16 * MB - 1)
+    if rng.random() < 0.4 and uva + 16 * MB <= 0xff000000:
+        # a supersection for a 36/40-bit device window
+        pa = pick(rng, [0x4_00000000, 0x8_40000000 + 0x1000000, 0xfc_00000000, 0x10000000 + 16 * MB * 3])
+        tb.map(uva, pa, "super", xn=1)
+        img.regions.append(("iosuper", uva, uva + 16 * MB - 1, False))
+    # ---- vectors page, a user page
+    tb.map(0xffff0000, rand_ram_page(), "small")
+    img.regions.append(("vectors", 0xffff0000, 0xffff0fff, False))
+    if rng.random() < 0.3:
+        tb.map(0x8000, rand_ram_page(), "small")
+        img.regions.append(("user", 0x8000, 0x8fff, False))
+    # ---- what the library is told
+    rcaps = f.get("rcaps", pick(rng, [3, 3, 1, 2, 7, 7, 4]))
+    img.rcaps = rcaps
+    d["rcaps"] = rcaps
+    for a, v in tb.words():
+        img.wphys32(a, v)
+        if rcaps & 4:
+            img.w32(KV, a - phys_off + page_offset, v)         # lowmem as the kernel sees it
+    img.walk = tb.walk
+    d["npt"] = 1 + len(tb.l2)
+    d["root_pa"] = root_pa
+    rootopt = f.get("rootopt", pick(rng, [None, None, None, "kphys", "machphys", "kv"]))
+    have_sym = f.get("swapper", rng.random() < 0.7)
+    have_stext = f.get("stext", rng.random() < 0.8)
+    have_pb = f.get("phys_base_opt", rng.random() < 0.5)
+    if rootopt == "kphys":
+        img.opts["rootpgt"] = "%d:%d" % (KPHYS, root_pa)
+    elif rootopt == "machphys":
+        img.opts["rootpgt"] = "%d:%d" % (MACHPHYS, root_pa)
+    elif rootopt == "kv":
+        img.opts["rootpgt"] = "%d:%d" % (KV, root_va)
+    if have_sym:
+        img.sym("sym", "swapper_pg_dir", root_va)
+    if have_stext:
+        img.sym("sym", "_stext", page_offset + text_off + pick(rng, [0, 0x40, 0x1000]))
+    if have_pb:
+        img.opts["phys_base"] = phys_off
+    d.update(rootopt=rootopt, swapper=have_sym, stext=have_stext, phys_base_opt=have_pb)
+    d["rootsrc"] = "+".join(x for x, c in (("opt-" + str(rootopt), rootopt), ("sym", have_sym)) if c) or "none"
+    # can the library read the tables?  root: the option, else swapper_pg_dir (KVADDR).  Physical tables need a physical read
+    # capability; a KVADDR root needs KVADDR reads or the temporary direct map that phys_base + _stext give
+    root_as = ("phys" if rootopt in ("kphys", "machphys") else "kv") if (rootopt or have_sym) else None
+    d["root_as"] = root_as
+    if root_as is None:
+        img.root_known = False
+        d["osinit_may_fail"] = True
+    elif not rcaps & 3:
+        img.root_known = False          # KVADDR-only reads: second-level tables are reachable only where a direct map exists
+    elif root_as == "phys":
+        img.root_known = True
+    else:
+        img.root_known = bool(rcaps & 4) or (have_pb and have_stext)
+    # ---- samples: section / supersection / large-page boundaries inside lowmem, the small-page tail
+    for b in (page_offset + MB, page_offset + 16 * MB, (end - 1) & ~(MB - 1), (end - 1) & ~0xffff, page_offset + text_off):
+        if page_offset < b < end:
+            img.extra_q += [b - 1, b, b + 0xfff, b + 0x1000]
+    for a, b in img.ram:
+        img.extra_rt += [a, a + 0x1000, b - 0xfff, b, b + 1, (a + b) // 2 & ~3]
+    img.extra_rt += [root_pa, phys_off + lowmem - 1, phys_off + lowmem, 0, phys_off - 1 if phys_off else 0, (1 << 32) - 1, 1 << 32, 1 << 36]
+    return img
+
+
+# =========================================================================== histories: one addrxlat_sys_t, several set-ups
+class HistoryImg(Img):
+    """the images of `stages` are set up one after the other on the SAME addrxlat_sys_t (`reset` replaces memory, symbols and
+    the context, not the system); everything the check evaluates is the last stage's"""
+    def __init__(self, stages, kind):
+        last = stages[-1]
+        self.__dict__.update(last.__dict__)
+        self.stages = stages
+        self.desc = dict(last.desc)
+        self.desc["history"] = kind
+        self.desc["stages"] = ["%s/%s" % (s.arch, s.os) for s in stages]
+
+    def setup_lines(self):
+        L = []
+        for i, s in enumerate(self.stages):
+            l = s.setup_lines()
+            if i:
+                assert l[0] == "clr"
+                l[0] = "reset"
+            L += l
+        return L
+
+
+def strip_for_failure(img, rng):
+    """make the set-up of `img` fail: take away what its architecture cannot do without"""
+    if img.arch == "x86_64":
+        img.syms = [s for s in img.syms if s[1] not in ("cr4", "pgtable_l5_enabled", "_stext")]
+        img.opts.pop("virt_bits", None); img.opts.pop("ver", None)
+        if img.os == "xen":
+            img.opts["virt_bits"] = 50                     # "Unsupported virtual address size"
+    elif img.arch == "aarch64":
+        img.opts.pop("page_shift", None)
+    elif img.arch == "riscv64":
+        img.syms = [s for s in img.syms if s[1] != "VA_BITS"]
+        img.opts["virt_bits"] = 40
+    elif img.arch == "arm":
+        img.syms = [s for s in img.syms if s[1] != "swapper_pg_dir"]
+        img.opts.pop("rootpgt", None)
+    else:
+        img.opts["phys_bits"] = 40
+    return img
+
+
+HISTORY_KINDS = ["xen->linux", "linux->xen", "xenxlat->bare", "5level->4level", "4level->5level", "arch->arch", "arch->arch",
+                 "failed->good", "same-twice", "three"]
+
+
+def gen_history(rng, force=None):
+    """history class "the same addrxlat_sys_t initialised more than once": after the LAST addrxlat_sys_os_init the property must
+    hold exactly as for a fresh system.  force: kind, first / last = (generator name, force dict)"""
+    import random
+    f = dict(force or {})
+    kind = f.get("kind", pick(rng, HISTORY_KINDS))
+    gens = ["gen_x86_64_linux", "gen_x86_64_xen", "gen_ia32_linux", "gen_riscv64_linux", "gen_aarch64_linux", "gen_arm_linux"]
+    def mk(name, frc=None):
+        return globals()[name](random.Random(rng.getrandbits(48)), force=dict(frc) if frc else None)
+    if "first" in f or "last" in f:
+        stages = [mk(*f[k]) for k in ("first", "middle", "last") if k in f]
+    elif kind == "xen->linux":
+        stages = [mk("gen_x86_64_xen"), mk("gen_x86_64_linux", dict(levels=4))]
+    elif kind == "linux->xen":
+        stages = [mk("gen_x86_64_linux"), mk("gen_x86_64_xen")]
+    elif kind == "xenxlat->bare":
+        a = mk("gen_x86_64_linux", dict(levels=4, xen_xlat0=False))
+        a.opts["xen_xlat"] = 1
+        if rng.random() < 0.7:
+            a.opts["xen_p2m_mfn"] = rng.randrange(1, 1 << 20)
+        stages = [a, mk(pick(rng, ["gen_x86_64_linux", "gen_x86_64_linux", "gen_x86_64_xen", "gen_ia32_linux", "gen_arm_linux"]))]
+    elif kind == "5level->4level":
+        stages = [mk("gen_x86_64_linux", dict(levels=5)), mk("gen_x86_64_linux", dict(levels=4))]
+    elif kind == "4level->5level":
+        stages = [mk("gen_x86_64_linux", dict(levels=4)), mk("gen_x86_64_linux", dict(levels=5))]
+    elif kind == "failed->good":
+        stages = [strip_for_failure(mk(pick(rng, gens)), rng), mk(pick(rng, gens))]
+    elif kind == "same-twice":
+        g, s = pick(rng, gens), rng.getrandbits(48)
+        stages = [globals()[g](random.Random(s)), globals()[g](random.Random(s))]
+    elif kind == "three":
+        stages = [mk(pick(rng, gens)), mk(pick(rng, gens)), mk(pick(rng, gens))]
+    else:
+        a = pick(rng, gens)
+        stages = [mk(a), mk(pick(rng, [g for g in gens if g != a]))]
+    if f.get("fail_first"):
+        strip_for_failure(stages[0], rng)
+    return HistoryImg(stages, kind)
